@@ -29,7 +29,8 @@ func init() {
 			"{absent, base account without key, base account with key and sequence, continuous vesting account, delayed vesting account, materialised module account, not yet materialised module address, the signer itself} x {proper signer, stranger} (144 combinations, each repeated with several seeds of amounts and block times); " +
 			"the remaining cases are random vesting histories (as C05). Vesting messages go through signed DeliverTx; the signature module's messages are not routable on this tree and are executed on its real message server on a branched deliver-state context written back on success. " +
 			"Oracle: field-wise diff of every pre-existing auth account (type, address, pubkey, account number, sequence, vesting fields); permitted: signer's sequence/pubkey, sender's own original_vesting after a successful split/move. " +
-			"Non-trivial: the target existed before and the message reached its handler (was not rejected by stateless validation or the ante handler). Distinct by (combination, seed).",
+			"Non-trivial: the target existed before and the message reached its handler (was not rejected by stateless validation or the ante handler). Distinct by (combination, seed)." +
+			" Targets include an account that was used and is empty, a vesting account that moved everything away, one that delegated everything (its cases run the routed handler on the block's own context), the governance module account; senders include the delayed vesting account; a new account must not take the account number of an existing one.",
 		Assumptions:   []string{"exhaustive refers to the message x target-state x signer dimension; payload values are sampled"},
 		Cases:         func(t string) int { return c09Combos()*tierN(t, 2, 40) + tierN(t, 96, 1500) },
 		MinNontrivial: func(t string) int { return tierN(t, 60, 1000) },
